@@ -1,5 +1,6 @@
 import TsVerif.C13.Props
 import TsVerif.C13.TreeLevel
+import TsVerif.C13.Round11
 #print axioms TsVerif.C13.ranges_valid_iff
 #print axioms TsVerif.C13.set_ranges_accepts_iff
 #print axioms TsVerif.C13.set_ranges_reject_keeps
@@ -15,3 +16,8 @@ import TsVerif.C13.TreeLevel
 #print axioms TsVerif.C13.obs_eq
 #print axioms TsVerif.C13.driver_concat
 #print axioms TsVerif.C13.tree_shape_concat
+#print axioms TsVerif.C13.lexChars_eq_rangedChars
+#print axioms TsVerif.C13.lexChars_eq_rangedChars_whole
+#print axioms TsVerif.C13.lexStream_eq_rangedChars_partial
+#print axioms TsVerif.C13.advance_step
+#print axioms TsVerif.C13.findRange_skipL
